@@ -265,7 +265,10 @@ def run(chk, replay=None):
             chk.violation('trace:%s:observed_statistic' % tr['kind'], {'shape': m['shape'], 'got': float(res.observed_statistic),
                                                                       'expected': str(xr.evaluate(e['obs'], m['rates']))})
         if len(e['sims']) != len(res.test_distribution):
-            raise MachineryError('captured %d simulated catalogs for %d distribution entries' % (len(e['sims']), len(res.test_distribution)))
+            # (how many catalogs the test simulates is the library's doing: reported, not a failure of the machinery)
+            chk.violation('trace:%s:number of simulated catalogs differs from the number of distribution entries' % tr['kind'],
+                          {'shape': m['shape'], 'captured': len(e['sims']), 'entries': len(res.test_distribution)})
+            continue
         for s, ex in enumerate(e['sims']):
             ev = xr.evaluate(ex, m['rates'])
             if not xr.close(res.test_distribution[s], ev, atol=1e-11 + m['extra']):
